@@ -22,6 +22,7 @@ type Val struct {
 	Iter *SymIter
 	Tup  []*Val
 	St   *State // state in which memory reachable from the value was produced (contract method calls)
+	Alts map[int]string // interfaces: payload term per possible type tag (more precise than L[1])
 }
 
 type SymMap struct {
